@@ -104,6 +104,27 @@ pub fn gen_c02(rng: &mut Rng, thorough: bool) -> Vec<Tagged> {
         out.push((format!("{}-special-relation-fwd", kind), Case::Net(spec.clone(), NetCmd::Forward(x.clone()))));
         out.push((format!("{}-special-relation-fwd-flatinput", kind), Case::Net(spec, NetCmd::Forward(flat_version(&x)))));
     }
+    // many multiply-accumulates / output elements with non-square output planes: forward alone, and in front of a dense
+    // layer (the flattened sequence is the row-major one)
+    for (k, (inp, l)) in big_nonsquare_layers().into_iter().enumerate() {
+        let osh = match out_shape(&l, inp) { Some(o) => o, None => continue };
+        if !(thorough || k < 4 || k == 6) {
+            continue;
+        }
+        let mut spec = NetSpec::new(inp.to_shape());
+        let lw = LW::One(rand_w(rng, &l, inp, 1));
+        let kind = l.kind();
+        spec.layers.push(LayerSpec::One(l));
+        let x = tensor_of_shape(&inp.to_shape(), &(0..inp.numel()).map(|i| ((i * 37) % 1013) as f32 * 0.002 - 1.0).collect::<Vec<_>>());
+        let mut alone = spec.clone();
+        alone.weights = Some(vec![lw.clone()]);
+        out.push((format!("{}-big-nonsquare-fwd", kind), Case::Net(alone, NetCmd::Forward(x.clone()))));
+        let d = Simple::Dense { out: 2, act: Act::Linear, bias: false, dropout: None };
+        let wd: Vec<f32> = (0..2 * osh.numel()).map(|i| ((i * 13) % 31) as f32 * 0.01 - 0.15).collect();
+        spec.weights = Some(vec![lw, LW::One(W::Dense(t2(2, osh.numel(), &wd), None))]);
+        spec.layers.push(LayerSpec::One(d));
+        out.push((format!("{}-big-nonsquare-then-dense-predict", kind), Case::Net(spec, NetCmd::Predict(x))));
+    }
     // special input values (infinities, NaN, huge, denormal, signed zeros) through every layer kind,
     // both representations: the defining operator is applied to whatever arrives
     {
@@ -364,6 +385,25 @@ pub fn gen_c08(rng: &mut Rng, thorough: bool) -> Vec<Tagged> {
             spec.weights = Some(vec![LW::One(rand_w(rng, &l, inp, 1))]);
             out.push((format!("{}-special-relation-produced", kind), Case::Net(spec, NetCmd::Forward(rand_input(rng, inp, 0)))));
         }
+    }
+    // (a5) big non-square outputs (more than 2^14 elements) in front of a dense layer: announced = produced, and the
+    //      flattened values reach the dense layer in row-major order (its output is compared)
+    for (k, (inp, l)) in big_nonsquare_layers().into_iter().enumerate() {
+        let osh = match out_shape(&l, inp) { Some(o) => o, None => continue };
+        if !(thorough || k == 2 || k == 3 || k == 6) {
+            continue;
+        }
+        let mut spec = NetSpec::new(inp.to_shape());
+        let lw = LW::One(rand_w(rng, &l, inp, 1));
+        let kind = l.kind();
+        spec.layers.push(LayerSpec::One(l));
+        let d = Simple::Dense { out: 2, act: Act::Linear, bias: false, dropout: None };
+        let wd: Vec<f32> = (0..2 * osh.numel()).map(|i| ((i * 13) % 31) as f32 * 0.01 - 0.15).collect();
+        spec.weights = Some(vec![lw, LW::One(W::Dense(t2(2, osh.numel(), &wd), None))]);
+        spec.layers.push(LayerSpec::One(d));
+        let x = tensor_of_shape(&inp.to_shape(), &(0..inp.numel()).map(|i| ((i * 37) % 1013) as f32 * 0.002 - 1.0).collect::<Vec<_>>());
+        out.push((format!("{}-big-nonsquare-then-dense-shapes", kind), Case::Net(spec.clone(), NetCmd::Shapes)));
+        out.push((format!("{}-big-nonsquare-then-dense-produced", kind), Case::Net(spec, NetCmd::Forward(x))));
     }
     // (b) flat -> spatial transitions for every flat size (perfect squares and not)
     let maxn = if thorough { 150 } else { 50 };
